@@ -37,6 +37,9 @@ def configs(tier):
            {'name': 'surface-then-reflect', 'kind': 'surf_reflect'},
            {'name': 'frames', 'kind': 'frames'}, {'name': 'rotation-matrix', 'kind': 'rotmat'},
            {'name': 'surface-constructors-carry-position-and-tilt', 'kind': 'ctor'}]
+    # Q-type (2D-Q freeform) surfaces: the slopes that become the surface normal are the derivatives of the sag (harness shared with C09)
+    for off in ('none', 'dx', 'dy'):
+        out.append({'name': 'q-type-surface-normal-%s' % off, 'kind': 'q2d_surface', 'off': off})
     # multi-surface prescriptions of tilted / decentred planes (the ray-plane intersection is exact after one Newton step): every mix of
     # tilted (T) and untilted (U) surfaces, reflecting (m), refracting (r) and non-bending (e)
     seqs = ['Tm,Ue', 'Ue,Tm', 'Tm,Um', 'Ur,Tm,Ue', 'Te,Ur', 'Tr,Ue'] if q else \
@@ -48,11 +51,14 @@ def configs(tier):
 
 def params(cfg):
     k = cfg['kind']
+    if k == 'q2d_surface':
+        from props import C09
+        return C09.params(cfg)
     if k in ('refract', 'reflect'):
         return [('a', {}), ('b', {}), ('gx', {}), ('gy', {}), ('n', {'lo': 1}), ('np_', {'lo': 1})]
     if k in ('normal', 'onaxis'):
         return [('x', {'gt': 0, 'lt': 1}), ('y', {'gt': 0, 'lt': 1}), ('c', {'gt': 0, 'lt': 0.3}), ('k', {'gt': -2, 'lt': 0.5}),
-                ('s', {'gt': 0, 'lt': 0.5})]
+                ('s', {'gt': -0.5, 'lt': 0.5})]
     if k in ('surf_refract', 'surf_reflect'):
         return [('a', {}), ('b', {}), ('x', {'gt': 0, 'lt': 1}), ('y', {'gt': 0, 'lt': 1}), ('c', {'gt': 0, 'lt': 0.3}), ('n', {'lo': 1}), ('np_', {'lo': 1})]
     if k == 'trace':
@@ -109,6 +115,9 @@ def run(cfg, H):
     np = H.np
     sm = H.mod('prysm.x.raytracing.spencer_and_murty')
     k = cfg['kind']
+    if k == 'q2d_surface':
+        from props import C09
+        return C09.run(cfg, H)
     if k in ('refract', 'reflect'):
         a, b = H.param('a'), H.param('b')
         S = unit_vector(H, a, b)
